@@ -24,9 +24,10 @@ EXTENDS Integers, Sequences, FiniteSets, TLC, Json, Cube
 
 CONSTANTS
     RotCases,       \* set of [dims, R]
-    PlaceCases,     \* set of [cdims, tmpl, poses]
+    PlaceCases,     \* set of [cdims, tmpl, poses]; with a further field u: complete positions in units of 1/u voxel
+                    \* (fractional positions) and template boxes of either parity
     PlaceListCases, \* set of [cdims, tmpls, poses]: one template per pose (input_object given as a list)
-    WindowCases,    \* set of [vdims, centre, shape]
+    WindowCases,    \* set of [vdims, centre, shape]; with a further field u: centre in units of 1/u voxel, any shape parity
     SymCases,       \* set of [dims, n]
     EmitMode        \* "none" | "tr"
 
@@ -95,6 +96,20 @@ AxisMap(vdims, centre, shape, ax) == [w \in 1..shape[ax] |->
 MeanTok == <<-1, -1, -1>>          \* the token "mean of the volume" (not an index)
 WindowCell(vdims, centre, shape, w) == LET s == Add(WStart(centre, shape), w) IN IF InBox(s, vdims) THEN s ELSE MeanTok
 
+\* ---- fractional centres / complete positions (units of 1/u voxel) and boxes of either parity --------------------
+\* One rule for both: coordinates are continuous, voxel i covers [i, i+1), a box of S voxels has its centre at S/2;
+\* the box is laid down with its centre at the requested coordinate and snapped DOWN to the voxel grid:
+\*     start = floor(centre - S/2)                (floor towards minus infinity, also left of voxel 0)
+\* For integral centres and even S this is WStart.  (\div is floor division for a positive divisor.)
+WStartQ(centre, shape, u) == [i \in 1..3 |-> (2 * centre[i] - u * shape[i]) \div (2 * u)]
+AxisMapQ(vdims, centre, shape, u, ax) == [w \in 1..shape[ax] |->
+        LET s == WStartQ(centre, shape, u)[ax] + w - 1 IN IF s >= 0 /\ s < vdims[ax] THEN s ELSE -1]
+\* the container voxel that receives the template's centre voxel S div 2 (the rotation centre of the template box)
+StampBaseQ(pose, tmpl, u) == LET S == tmpl.S
+                                 st == WStartQ([i \in 1..3 |-> pose.pos[i] - u], <<S, S, S>>, u)     \* 1-based -> 0-based
+                             IN  [i \in 1..3 |-> st[i] + S \div 2]
+StampQ(pose, tmpl, u) == { Add(StampBaseQ(pose, tmpl, u), PoseShift(pose.R, o)) : o \in HiOffsets(tmpl) }
+
 -----------------------------------------------------------------------------
 \* C_n symmetrisation, n in {1, 2, 4}: rotations by k * 360/n about z are cube rotations (n = 1: the map itself)
 
@@ -107,13 +122,17 @@ SymPairs(dims, n) == { <<x, [k \in 1..n |-> SymSource(x, dims, n, k)]>> : x \in 
 -----------------------------------------------------------------------------
 \* the state machine
 
+HasUnit(c) == "u" \in DOMAIN c
+
 Init == /\ d = 0
         /\ out = <<>>
         /\ \/ kind = "rotate" /\ inp \in RotCases
-           \/ kind = "place"  /\ inp \in PlaceCases
+           \/ kind = "place"  /\ inp \in { c \in PlaceCases : ~HasUnit(c) }
            \/ kind = "placelist" /\ inp \in PlaceListCases
-           \/ kind = "window" /\ inp \in WindowCases
+           \/ kind = "window" /\ inp \in { c \in WindowCases : ~HasUnit(c) }
            \/ kind = "sym"    /\ inp \in SymCases
+           \/ kind = "windowq" /\ inp \in { c \in WindowCases : HasUnit(c) }
+           \/ kind = "placeq" /\ inp \in { c \in PlaceCases : HasUnit(c) }
 
 Rotate == /\ kind = "rotate" /\ d = 0
           /\ out' = [pairs |-> RotPairs(inp.dims, inp.R)]
@@ -135,7 +154,15 @@ Symmetrize == /\ kind = "sym" /\ d = 0
               /\ out' = [pairs |-> SymPairs(inp.dims, inp.n)]
               /\ d' = 1 /\ UNCHANGED <<kind, inp>>
 
-Next == Rotate \/ Place \/ PlaceList \/ Window \/ Symmetrize
+WindowQ == /\ kind = "windowq" /\ d = 0
+           /\ out' = [axes |-> [ax \in 1..3 |-> AxisMapQ(inp.vdims, inp.centre, inp.shape, inp.u, ax)]]
+           /\ d' = 1 /\ UNCHANGED <<kind, inp>>
+
+PlaceQ == /\ kind = "placeq" /\ d = 0
+          /\ out' = [placed |-> PlacedFrom(inp.cdims, inp.poses, [i \in DOMAIN inp.poses |-> StampQ(inp.poses[i], inp.tmpl, inp.u)])]
+          /\ d' = 1 /\ UNCHANGED <<kind, inp>>
+
+Next == Rotate \/ Place \/ PlaceList \/ Window \/ Symmetrize \/ WindowQ \/ PlaceQ
 
 Spec == Init /\ [][Next]_vars
 
@@ -155,6 +182,12 @@ TypeOK == /\ d \in {0, 1}
                                    /\ \A i \in DOMAIN inp.poses : inp.poses[i].R \in All /\ inp.tmpls[i].S % 2 = 0
           /\ kind = "window" => \A i \in 1..3 : inp.shape[i] % 2 = 0 /\ inp.shape[i] > 0
           /\ kind = "sym" => inp.n \in {1, 2, 4}
+          /\ kind = "windowq" => inp.u > 0 /\ \A i \in 1..3 : inp.shape[i] > 0
+          /\ kind = "placeq" => /\ inp.u > 0
+                                /\ \A i \in DOMAIN inp.poses : inp.poses[i].R \in All
+                                \* support clear of the template faces under every rotation (even box: S/2 - 2, odd: S div 2 - 1)
+                                /\ LET b == IF inp.tmpl.S % 2 = 0 THEN inp.tmpl.S \div 2 - 2 ELSE inp.tmpl.S \div 2 - 1 IN
+                                   \A j \in DOMAIN inp.tmpl.cells : \A i \in 1..3 : inp.tmpl.cells[j].o[i] >= -b /\ inp.tmpl.cells[j].o[i] <= b
 
 \* every operation is a function of its inputs and leaves them as they are (maps, angle / coordinate / shape arrays,
 \* templates, particle lists): the same input object can be used for the next call
@@ -225,6 +258,38 @@ C14_WindowExact ==
               /\ Cardinality({ w \in 1..Len(m) : m[w] >= 0 }) =
                    Cardinality((0..(inp.vdims[ax] - 1)) \cap ((inp.centre[ax] - inp.shape[ax] \div 2)..(inp.centre[ax] + inp.shape[ax] \div 2 - 1)))
 
+\* fractional centres: the window start is the unique integer s with  s <= centre/u - S/2 < s + 1  on every axis (also
+\* for negative values and beyond the upper face), the in-volume part is the intersection of the two boxes; integral
+\* centres with even shapes give WStart
+C14_WindowStartRule ==
+    Done("windowq") =>
+        \A ax \in 1..3 :
+            LET s == WStartQ(inp.centre, inp.shape, inp.u)[ax]
+                m == out.axes[ax]
+            IN  /\ 2 * inp.u * s <= 2 * inp.centre[ax] - inp.u * inp.shape[ax]
+                /\ 2 * inp.centre[ax] - inp.u * inp.shape[ax] < 2 * inp.u * (s + 1)
+                /\ Len(m) = inp.shape[ax]
+                /\ \A w \in 1..Len(m) : m[w] = IF s + w - 1 >= 0 /\ s + w - 1 < inp.vdims[ax] THEN s + w - 1 ELSE -1
+                /\ (inp.centre[ax] % inp.u = 0 /\ inp.shape[ax] % 2 = 0) => s = inp.centre[ax] \div inp.u - inp.shape[ax] \div 2
+
+\* fractional complete positions, template boxes of either parity: the template's centre voxel S div 2 lands on the voxel
+\* given by the same rule, every other template voxel at its rotated offset from there; integral positions with an even
+\* box give Stamp
+C14_PlaceFractional ==
+    Done("placeq") => LET S == inp.tmpl.S
+                          st == [i \in DOMAIN inp.poses |-> StampQ(inp.poses[i], inp.tmpl, inp.u)]
+                          touched == { p[1] : p \in out.placed }
+                      IN
+                      /\ touched = { x \in UNION { st[i] : i \in DOMAIN inp.poses } : InBox(x, inp.cdims) }
+                      /\ Cardinality(touched) = Cardinality(out.placed)
+                      /\ \A i \in DOMAIN inp.poses : \A a \in 1..3 :
+                             LET b == StampBaseQ(inp.poses[i], inp.tmpl, inp.u)[a] - S \div 2
+                                 c2 == 2 * (inp.poses[i].pos[a] - inp.u) - inp.u * S
+                             IN  2 * inp.u * b <= c2 /\ c2 < 2 * inp.u * (b + 1)
+                      /\ \A i \in DOMAIN inp.poses :
+                             ((\A a \in 1..3 : inp.poses[i].pos[a] % inp.u = 0) /\ S % 2 = 0) =>
+                                 st[i] = Stamp([inp.poses[i] EXCEPT !.pos = [a \in 1..3 |-> inp.poses[i].pos[a] \div inp.u]], inp.tmpl)
+
 \* the symmetrised map is invariant under the rotation by 360/n (same set of sources wherever both voxels are decided)
 \* and, on a region closed under that rotation, has the same total density (every source is used n times in n means)
 C14_SymInvariant ==
@@ -258,6 +323,8 @@ PJ == CASE kind = "rotate" -> [dims |-> inp.dims, r |-> Code(inp.R)]
         [] kind = "place"  -> [cdims |-> inp.cdims, tmpl |-> inp.tmpl, poses |-> PosesJ(inp.poses)]
         [] kind = "placelist" -> [cdims |-> inp.cdims, tmpls |-> inp.tmpls, poses |-> PosesJ(inp.poses)]
         [] kind = "window" -> inp
+        [] kind = "windowq" -> inp
+        [] kind = "placeq" -> [cdims |-> inp.cdims, tmpl |-> inp.tmpl, poses |-> PosesJ(inp.poses), u |-> inp.u]
         [] kind = "sym"    -> inp
 
 EmitTR == \/ EmitMode # "tr"
